@@ -4,7 +4,7 @@
 //!   detnp gen     -> `ok <n files> <total bytes>` | `err <msg>` | `panic <file>:<line>:<col>\x1e<message on one line>`
 //!                    (the panic location comes from a panic hook; generation itself is genlib::generate = the
 //!                    generator run as a library under catch_unwind)
-//!   detnp hash    -> `ok` then per file ` <name>\x1d<len>\x1d<fnv1a-64 hex>\x1d<second hash hex>` (sorted by name, as
+//!   detnp hash    -> `ok` then per file ` <name>\x1d<len>\x1d<fnv1a-64 hex>\x1d<second hash hex>\x1d<line-multiset hash>` (sorted by name, as
 //!                    `Files` yields them) | `err …` | `panic …`      (C15: compared across separate processes)
 //!   detnp files   -> like genlib's own output (full file contents), used by replay/shrink to show a diff
 //!   detnp valid   -> `ok` | `err <msg>`: the world is a VALID WIT world = wit-parser accepts the text, the world can be
@@ -133,7 +133,10 @@ fn main() {
                 "hash" => {
                     let mut s = String::from("ok");
                     for (n, c) in &fs {
-                        s.push_str(&format!(" {}\x1d{}\x1d{:016x}\x1d{:016x}", n.replace(' ', "\x1c"), c.len(), fnv1a(c), poly(c)));
+                        // last field: order-insensitive hash of the multiset of lines (equal in two outputs whose content
+                        // hashes differ <=> the difference is a pure reordering of lines)
+                        let lines: u64 = c.split(|b| *b == b'\n').fold(0u64, |a, l| a.wrapping_add(fnv1a(l).wrapping_mul(0x9E3779B97F4A7C15)));
+                        s.push_str(&format!(" {}\x1d{}\x1d{:016x}\x1d{:016x}\x1d{:016x}", n.replace(' ', "\x1c"), c.len(), fnv1a(c), poly(c), lines));
                     }
                     writeln!(out, "{s}").unwrap()
                 }
